@@ -66,6 +66,10 @@ CLAIMED = {
    text="Invoice-level correction and replication logic, decided by symbolic execution with z3 path feasibility over every combination of regime (none, ES, MX, PL, GR - real correction definitions imported from the registry), correction type option (none/credit/debit/corrective), reason, stamps (none / required / other provider, passed explicitly or through the source header), series, issue date and extension options, with symbolic code/series/identifier strings: Correct is refused unless the source has a code, a type is requested that the regime allows, the reason is present when required and every required stamp is supplied; when accepted the result has no code and no identifier, the requested type, and exactly one preceding reference carrying the source's identifier, type, series, code, issue date, the reason and the required stamps; the source value handed to Clone is untouched; a replica has no identifier / code and fresh dates.",
    note="Stubs: the final recalculation inside Correct (success), the clock. Outside: fidelity of schema.Object.Clone (JSON round trip by reflection), envelope-level header/signature immutability, CLI/bulk parsing, addon-specific definitions.",
    ref="DESIGN.md 5 (C16)"),
+ "C18": dict(
+   text="Leaf rule only: for every registered extension key (regime, addon and catalogue definitions imported from the registry) and EVERY ASCII candidate value of 1..3 bytes (symbolic), the solver shows that tax.Extensions.Validate accepts the value only if the published definition file (data/addons, data/regimes, data/catalogues, read at run time) lists that code or its pattern matches; an undefined key is rejected.",
+   note="Outside: the wiring of every reference position of every document type to its rule (reflection-driven struct validation), category/rate-key membership, tag, currency and country code rules (not built in this session), values longer than 3 bytes, keys with more than 40 (thorough 300) codes.",
+   ref="DESIGN.md 5 (C18)"),
 }
 
 NA = {
